@@ -31,7 +31,7 @@ def rname_of(name):
 
 def aid(I, k):
     """model id -> the id used with the library (some inputs mix int and str ids in one WBS)"""
-    return "T%d" % k if I.get("strids") and k % 2 == 0 else k
+    return "T%d" % k if I.get("strids") and k % 2 == 0 else int(str(k))      # a fresh int object every time
 
 
 def q4(k):
@@ -175,10 +175,15 @@ def gen_case(rng, direction, n, cid, opts=None):
     opts = opts or {}
     tasks, roots = gen_structure(rng, n, opts.get("shape"))
     ids = rng.sample(range(-1, 3 * n + 2), n) if rng.random() < 0.7 else list(range(0, n))    # id 0 is an id like any other
+    if rng.random() < 0.3:
+        ids = [i + 1000 if i > 0 else i for i in ids]        # large numbers: equal ids are not the same int object
     # project start / end and clock
     base = rng.choice([7, 8, 9, 10, 11, 12, 13])             # day number: Monday..Sunday of week 2
     if direction == "bwd":
         base += 70                                            # backward schedules grow towards the epoch
+    if rng.random() < 0.15:
+        # around the ends of months and years and the leap day (2024-02-29 is day 59, 2025-01-01 is day 366)
+        base = rng.choice([28, 29, 30, 31, 57, 58, 59, 60, 363, 364, 365, 366, 367]) + (3 if direction == "bwd" else 0)
     tod = rng.choice([0, 0, 540, 600])
     pstart = base * DAY + tod
     if direction == "fwd":
